@@ -1425,6 +1425,21 @@ class FakeLogger(ModelObject):
     debug = info = warning = error = exception = critical = log = _noop
 
 
+class CtxGen(ModelObject):
+    """Value of a call to a @contextmanager generator function of the repo."""
+
+    def __init__(self, yielded: list):
+        self.yielded = yielded
+
+    def _enter(self, interp: "XInterp", is_async: bool) -> Any:
+        if len(self.yielded) != 1:
+            raise Unsupported("@contextmanager function did not yield exactly once")
+        return self.yielded[0]
+
+    def _exit(self, interp: "XInterp", exc: Any) -> bool:
+        return False
+
+
 class Suppress(ModelObject):
     def __init__(self, *names: Any):
         self.names = {_exc_name(n) for n in names}
@@ -1757,6 +1772,7 @@ class XInterp(Interp):
         env.update(bound)
         self.world.trace_calls.append(fn.name)
         eager = _is_generator(fn) and not stream
+        as_ctx = eager and bool({"contextmanager", "asynccontextmanager"} & _decorators(fn))
         sink_saved = self.world.yield_sink
         collected: list = []
         if eager:
@@ -1764,9 +1780,13 @@ class XInterp(Interp):
         try:
             sub.exec_block(fn.body, env)
         except _Return as r:
-            return collected if eager else r.v
+            if not eager:
+                return r.v
         finally:
             self.world.yield_sink = sink_saved
+        if as_ctx:
+            # the generator is run to completion before the body (its cleanup only closes model connections)
+            return CtxGen(collected)
         return collected if eager else None
 
     def construct(self, c: ClassRef, args: list, kw: dict) -> Any:
@@ -2292,6 +2312,7 @@ def check_sql_users(chk: Any, schema: Schema, mods: list[str], extra_tables: Sch
     for modname in mods:
         m = repo.module(modname)
         sites = sql_sites(m)
+        seen_frag: dict = {}
         tables_by_fn: dict[int, set[str]] = {}
         mod_tables: set[str] = set()
         parsed = []
@@ -2344,6 +2365,7 @@ def check_sql_users(chk: Any, schema: Schema, mods: list[str], extra_tables: Sch
             for node, ident in idents:
                 n_cols += 1
                 fn = s["fn"]
+                seen_frag[(id(fn), ident)] = seen_frag.get((id(fn), ident), -1) + 1
                 cand = set()
                 f: ast.AST | None = fn
                 while f is not None and not cand:
@@ -2352,7 +2374,7 @@ def check_sql_users(chk: Any, schema: Schema, mods: list[str], extra_tables: Sch
                 cand = cand or mod_tables
                 ok = any(t in schema.tables and ident in schema.columns(t) for t in cand)
                 chk.ob("C28.R3", f"SQL fragment column `{ident}` exists in a table this code queries ({', '.join(sorted(cand))})", ok,
-                       m=m, node=node, fn=fn, instance=f"sqlfrag:{ident}", reason=f"`{ident}` is not a column of {sorted(cand)} in the final migrated schema")
+                       m=m, node=node, fn=fn, instance=f"sqlfrag:{ident}:{seen_frag[(id(fn), ident)]}", reason=f"`{ident}` is not a column of {sorted(cand)} in the final migrated schema")
     chk.floor("C28.R3", "SQL statements in the SQLite stores parsed and compared with the final schema", n_stmt, 12)
     chk.floor("C28.R3", "SQL fragment column names compared with the final schema", n_cols, 6)
 
